@@ -626,6 +626,69 @@ def r09f(ctx):
                                f"position={kw(a, 'position')}, main_text={kw(a, 'main_text')}: for any occurrence but the default one the end lands on another match than the start")
 
 
+def r09g(ctx):
+    """delete(child) is asked of the element the child was found under.
+
+    `Element.delete(child)` first moves the child's tail to the previous sibling — or, when there is none, into the *receiver's* own text —
+    and then asks lxml to remove the child from the receiver.  With a receiver that is not the child's parent the tail lands in the wrong
+    element and the removal raises afterwards, leaving the paragraph half modified (text moved, both marks still there).  Rule over every
+    `P.delete(C)` of the package: C is a parameter handed through, or P is `C.parent`, or C was looked up / iterated under the same P;
+    a C obtained from a lookup on another element than P is reported (self-deletion `C.delete()` finds the parent itself).
+    """
+    from ..paths import canon
+    repo = ctx.repo
+    ctx.rule("R09g", "P.delete(C): C was found under P (or P is C.parent, or C is handed through)", floor=20)
+    for f in repo.all_funcs():
+        if f.kind == "nested" or "/scripts/" in f.file:
+            continue
+        params = {a.arg for a in f.all_params()}
+        for c in walk_no_nested(f.node):
+            if not (isinstance(c, ast.Call) and isinstance(c.func, ast.Attribute) and c.func.attr == "delete" and c.args and isinstance(c.args[0], ast.Name)):
+                continue
+            child, recv = c.args[0].id, c.func.value
+            if isinstance(recv, ast.Call) and call_name(recv) == "super":
+                rtxt = "self"
+            else:
+                rtxt = canon(f, recv)
+            verdict, why = "undetermined", ""
+            if child in params:
+                verdict = "ok"
+            elif isinstance(recv, ast.Attribute) and recv.attr == "parent" and isinstance(recv.value, ast.Name) and recv.value.id == child:
+                verdict = "ok"
+            else:
+                srcs = []
+                for st in walk_no_nested(f.node):
+                    if isinstance(st, ast.Assign) and any(isinstance(t, ast.Name) and t.id == child for t in st.targets):
+                        srcs.append(st.value)
+                    elif isinstance(st, (ast.For, ast.comprehension)) and isinstance(st.target, ast.Name) and st.target.id == child:
+                        srcs.append(st.iter)
+                    elif isinstance(st, ast.For) and isinstance(st.target, ast.Tuple) and any(isinstance(e, ast.Name) and e.id == child for e in st.target.elts):
+                        srcs.append(st.iter)
+                roots = set()
+                for e in srcs:
+                    while isinstance(e, ast.Call) and call_name(e) in ("list", "reversed", "enumerate", "tuple", "sorted") and e.args:
+                        e = e.args[0]
+                    if isinstance(e, ast.Call) and isinstance(e.func, ast.Attribute):
+                        roots.add(canon(f, e.func.value))
+                    elif isinstance(e, ast.Attribute):
+                        roots.add(canon(f, e.value))
+                    elif isinstance(e, ast.Subscript) and isinstance(e.value, (ast.Attribute, ast.Call)):
+                        v = e.value.func.value if isinstance(e.value, ast.Call) and isinstance(e.value.func, ast.Attribute) else e.value.value if isinstance(e.value, ast.Attribute) else None
+                        if v is not None:
+                            roots.add(canon(f, v))
+                if roots and roots == {rtxt}:
+                    verdict = "ok"
+                elif roots == {"self"} and rtxt.startswith("self."):
+                    verdict = "undetermined"  # a helper of self that searches under an attribute of self (XmlPart.root …)
+                elif roots and rtxt not in roots:
+                    verdict, why = "bad", f"`{child}` is looked up under {sorted(roots)}, not under `{rtxt}`"
+            ctx.instance("R09g", f"{f.file}:{f.ident}", f"{norm(c, 40)}: {verdict}", ok=verdict != "bad", nontrivial=verdict != "undetermined", line=c.lineno)
+            if verdict == "bad":
+                ctx.report("R09g", f, c, norm(c, 60),
+                           f"{f.ident} asks `{rtxt}` to delete `{child}`, but {why}: when `{child}` is not a direct child of `{rtxt}`, delete() moves its tail text into the wrong element "
+                           f"and the removal then fails, leaving text displaced and the markup in place")
+
+
 def run(ctx):
     r09a(ctx)
     r09b(ctx)
@@ -633,6 +696,12 @@ def run(ctx):
     r09d(ctx, _cut_sites(ctx.repo)[0])
     r09e(ctx)
     r09f(ctx)
+    r09g(ctx)
+    # strip_tags and the span builders re-attach every text piece through Element.append: a substitution there that touches more than U+0020 rewrites text
+    # that lies outside the markup being inserted or removed (part of a rule shared with C16)
+    from .c16 import r16i
+    r16i(ctx, children=False)
+    ctx.rules["R16i"].floor = 1
 
 
 from ..selftest import Seed, unparse_seed  # noqa: E402
@@ -640,6 +709,10 @@ from ..selftest import Seed, unparse_seed  # noqa: E402
 _P = "src/odfdo/paragraph.py"
 _EL = "src/odfdo/element.py"
 SEEDS = [
+    Seed("ReferenceMarkStart.delete asks its own parent to remove the end mark", "fault", "src/odfdo/reference.py",
+         "        if end:\n            end.delete()\n        # act like normal delete\n        return super().delete()", "        if end:\n            parent.delete(end)\n        # act like normal delete\n        return parent.delete(self)", "R09g"),
+    Seed("ReferenceMarkStart.delete asks the end mark's own parent", "neutral", "src/odfdo/reference.py",
+         "        if end:\n            end.delete()\n", "        if end:\n            end.parent.delete(end)\n"),
     Seed("occurrence counter overwritten instead of accumulated", "fault", _EL, "            count += found_nb\n        else:\n            raise ValueError(f\"Text not found: '{xpath_result}'\")", "            count = found_nb\n        else:\n            raise ValueError(f\"Text not found: '{xpath_result}'\")", "R09f"),
     Seed("reference-mark end placed without the position", "fault", _P,
          "            self._insert(\n                reference_end, after=content, position=position, main_text=True\n            )", "            self._insert(reference_end, after=content, main_text=True)", "R09f"),
@@ -695,5 +768,5 @@ SEEDS = [
     Seed("_strip_tags refactored around one content list (tail restored)", "neutral", _EL,
          "        text = element_clone.text\n        tail = element_clone.tail\n        if not protected and strip and element.tag in strip:\n            element_result: list[Element | str] = []\n            if text is not None:\n                element_result.append(text)\n            for child in children:\n                element_result.append(child)\n            if tail is not None:\n                element_result.append(tail)\n            return (element_result, True)\n        else:\n            if not modified:\n                return (element, False)\n            element.clear()\n            try:\n                for key, value in element_clone.attributes.items():\n                    element.set_attribute(key, value)\n            except ValueError:\n                sys.stderr.write(f\"strip_tags(): bad attribute in {element_clone}\\n\")\n            if text is not None:\n                element.__append(text)\n            for child in children:\n                element.__append(child)\n            if tail is not None:\n                element.tail = tail\n            return (element, True)\n",
          "        content: list[Element | str] = []\n        if element_clone.text is not None:\n            content.append(element_clone.text)\n        content.extend(children)\n        if not protected and strip and element.tag in strip:\n            if element_clone.tail is not None:\n                content.append(element_clone.tail)\n            return (content, True)\n        if not modified:\n            return (element, False)\n        element.clear()\n        try:\n            for key, value in element_clone.attributes.items():\n                element.set_attribute(key, value)\n        except ValueError:\n            sys.stderr.write(f\"strip_tags(): bad attribute in {element_clone}\\n\")\n        for item in content:\n            element.__append(item)\n        if element_clone.tail is not None:\n            element.tail = element_clone.tail\n        return (element, True)\n"),
-    unparse_seed(_P), unparse_seed(_EL),
+    unparse_seed(_P), unparse_seed(_EL), unparse_seed("src/odfdo/reference.py"), unparse_seed("src/odfdo/style.py"),
 ]
